@@ -43,7 +43,7 @@ type c05Run struct {
 	Base       string `json:"base_branch,omitempty"`
 	NoChange   bool   `json:"branch_without_changes,omitempty"`
 	JSONExists bool   `json:"json_file_exists"`
-	PanicIn    string `json:"panic_in,omitempty"` // "verifyOwners" when the (untruncated) stack trace of a panic names main.verifyOwners
+	PanicIn    string `json:"panic_in,omitempty"` // "verifyOwners" when the (untruncated) stack trace of a panic names main.verifyOwners (diagnostics only)
 	Exit     int          `json:"exit"`
 	Stderr   string       `json:"stderr_tail,omitempty"`
 }
@@ -104,11 +104,23 @@ func c05GenScenario(r *rand.Rand) c05Scenario {
 	return c05Scenario{Rules: rules.String(), Config: cfg.String()}
 }
 
-// class predicate of known finding C05-require-owner-broken-rule-crash (input side): the rule file parses as a whole
-// (no file-level YAML error) and holds a rule with a rule-level parse error; the generated files never carry owners.
+// input class of the REPAIRED finding C05-require-owner-broken-rule-crash (fix ec90fa6; corpus/C05/require_owner_broken_rule.json):
+// the rule file parses as a whole (no file-level YAML error) and holds a rule with a rule-level parse error; the generated files
+// never carry owners.  Such scenarios always get the --require-owner runs (lint, and ci on a branch without changes).
 func c05UnownedBrokenRule(sc c05Scenario) bool {
 	return strings.Contains(sc.Rules, "bogus_key") && !strings.Contains(sc.Rules, "{{ broken yaml")
 }
+
+// /dev/full accepts open() and fails every write with ENOSPC: the way to make a reporter's Submit fail
+var c05DevFull = func() bool {
+	f, err := os.OpenFile("/dev/full", os.O_WRONLY, 0)
+	if err != nil {
+		return false
+	}
+	defer f.Close()
+	_, err = f.Write([]byte("x"))
+	return err != nil
+}()
 
 func runC05(args []string) int {
 	n := argInt(args, "--n", 30)
@@ -118,7 +130,7 @@ func runC05(args []string) int {
 	rep.Rule = "scenario = generated rule file + config assigning custom severities (report/label blocks, syntax errors, strict parse errors, broken yaml); " +
 		"each scenario is run through the real pint binary (lint and ci) for every --fail-on in {omitted,info,warning,bug,fatal,invalid} x a sample of --min-severity x --show-duplicates; " +
 		"every third scenario additionally with one injected fault per error return of actionSetup/actionLint/actionCI (no path, missing path, bad/missing config, --workers 0, bad log level, " +
-		"unwritable --json/--checkstyle, not a git repository, unknown base branch, github reporter without token), pint ci run from the base branch (5 spellings) and on a branch without changes; " +
+		"unwritable --json/--checkstyle, failing Prometheus discovery (checkRules error), --json /dev/full (Submit error), not a git repository, unknown base branch, github reporter without token), pint ci run from the base branch (5 spellings) and on a branch without changes; " +
 		"non-trivial = the JSON report holds >= 2 distinct severities; distinct = (severity multiset, flags)"
 	cwd, _ := os.Getwd()
 	base := filepath.Join(cwd, "scen")
@@ -233,6 +245,8 @@ func runC05(args []string) int {
 			writeFile(filepath.Join(dir, "nogit", ".pint.hcl"), scen[si].Config)
 			writeFile(filepath.Join(dir, "bad.hcl"), "rule {\n  this is not hcl\n")
 			writeFile(filepath.Join(dir, "gh.hcl"), scen[si].Config+"repository {\n  github {\n    owner = \"o\"\n    repo = \"r\"\n  }\n}\n")
+			// checkRules fails: Prometheus discovery (GenerateDynamic) walks a directory that does not exist (only when there is at least one entry)
+			writeFile(filepath.Join(dir, "disc.hcl"), scen[si].Config+"discovery {\n  filepath {\n    directory = \"/nonexistent/verif-c05\"\n    match = \"(?P<name>.+)\"\n    template {\n      name = \"p-{{ $name }}\"\n      uri = \"http://127.0.0.1:1\"\n    }\n  }\n}\n")
 			fat, bug := "fatal", "info"
 			for _, fo := range []*string{nil, &fat, &bug} {
 				for _, f := range []string{"no-paths", "missing-path", "bad-config", "missing-config", "workers", "log-level", "json-unwritable", "checkstyle-unwritable"} {
@@ -240,6 +254,18 @@ func runC05(args []string) int {
 					if f == "bad-config" || f == "workers" || f == "json-unwritable" {
 						runs = append(runs, c05Run{Scenario: si, CI: true, FailOn: fo, Fault: f, Branch: "feature", Base: "main"})
 					}
+				}
+				hasRules := strings.Contains(scen[si].Rules, "- record:") || strings.Contains(scen[si].Rules, "- alert:")
+				var extra []string
+				if hasRules && !strings.Contains(scen[si].Rules, "{{ broken yaml") {
+					extra = append(extra, "discovery-fails")
+				}
+				if c05DevFull {
+					extra = append(extra, "submit-fails") // --json /dev/full: the file can be created, every write fails
+				}
+				for _, f := range extra {
+					runs = append(runs, c05Run{Scenario: si, FailOn: fo, Fault: f})
+					runs = append(runs, c05Run{Scenario: si, CI: true, FailOn: fo, Fault: f, Branch: "feature", Base: "main"})
 				}
 				for _, f := range []string{"not-a-repo", "bad-base", "github-no-token"} {
 					ru := c05Run{Scenario: si, CI: true, FailOn: fo, Fault: f, Branch: "feature", Base: "main"}
@@ -299,6 +325,10 @@ func runC05(args []string) int {
 			cfgArg = "../gh.hcl"
 		case "json-unwritable":
 			jsonArg = "/nonexistent/verif-c05/out.json"
+		case "discovery-fails":
+			cfgArg = "../disc.hcl"
+		case "submit-fails":
+			jsonArg = "/dev/full"
 		}
 		a = append(a, "--no-color", "-c", cfgArg)
 		switch ru.Fault {
@@ -386,10 +416,9 @@ func runC05(args []string) int {
 	sevRank := map[string]int{"Information": 0, "Warning": 1, "Bug": 2, "Fatal": 3}
 	flagRank := map[string]int{"info": 0, "warning": 1, "bug": 2, "fatal": 3}
 	for _, ru := range runs {
-		cw.add(fmt.Sprintf("{| c_id := %s; c_ci := %s; c_fail_on := %s; c_min_sev := %s; c_sevs := %s; c_json_present := %s; c_exit_nonzero := %s; c_fault := %s; c_branch := %s; c_base := %s; c_json_exists := %s; c_exit_code := %s; c_require_owner := %s; c_unowned_broken_rule := %s |}",
+		cw.add(fmt.Sprintf("{| c_id := %s; c_ci := %s; c_fail_on := %s; c_min_sev := %s; c_sevs := %s; c_json_present := %s; c_exit_nonzero := %s; c_fault := %s; c_branch := %s; c_base := %s; c_json_exists := %s; c_exit_code := %s |}",
 			coqN(ru.ID), coqBool(ru.CI), optS(ru.FailOn), optS(ru.MinSev), coqStrList(ru.Sevs), coqBool(ru.JSONOK), coqBool(ru.Exit != 0),
-			coqStr(ru.Fault), coqStr(ru.Branch), coqStr(ru.Base), coqBool(ru.JSONExists), coqZ(int64(ru.Exit)), coqBool(ru.RequireOwner),
-			coqBool(c05UnownedBrokenRule(scen[ru.Scenario]))))
+			coqStr(ru.Fault), coqStr(ru.Branch), coqStr(ru.Base), coqBool(ru.JSONExists), coqZ(int64(ru.Exit))))
 		distinct := map[string]bool{}
 		for _, s := range ru.Sevs {
 			distinct[s] = true
@@ -429,14 +458,16 @@ func runC05(args []string) int {
 		}
 		rep.Cases[fmt.Sprint(ru.ID)] = map[string]any{"run": ru, "scenario": scen[ru.Scenario]}
 		// implementation-level oracle: the property as written
-		if ru.Exit == 2 && ru.RequireOwner && c05UnownedBrokenRule(scen[ru.Scenario]) && ru.PanicIn == "verifyOwners" {
-			// known finding: verifyOwners dereferences the (nil) last key of a rule that failed to parse
-			rep.hist("known=C05-require-owner-broken-rule-crash")
-			rep.failKnown(fmt.Sprint(ru.ID), "pint panics in verifyOwners: --require-owner with a rule that failed to parse", map[string]any{"run": ru, "scenario": scen[ru.Scenario]}, "C05-require-owner-broken-rule-crash")
-			continue
+		if ru.RequireOwner && c05UnownedBrokenRule(scen[ru.Scenario]) {
+			// regression stratum of the repaired finding C05-require-owner-broken-rule-crash (fix ec90fa6): a crash here is a VIOLATION
+			rep.hist("regression=require-owner-with-broken-rule")
 		}
 		if ru.Exit < 0 || ru.Exit > 1 {
-			rep.fail(fmt.Sprint(ru.ID), fmt.Sprintf("pint crashed or timed out (exit %d): %s", ru.Exit, ru.Stderr), map[string]any{"run": ru, "scenario": scen[ru.Scenario]})
+			where := ""
+			if ru.PanicIn != "" {
+				where = " (panic in " + ru.PanicIn + ")"
+			}
+			rep.fail(fmt.Sprint(ru.ID), fmt.Sprintf("pint crashed or timed out (exit %d)%s: %s", ru.Exit, where, ru.Stderr), map[string]any{"run": ru, "scenario": scen[ru.Scenario]})
 			continue
 		}
 		if ru.Fault != "" {
